@@ -110,6 +110,13 @@ def run_case(case):
             if False:
                 pass
             elif k == "release":
+                if len(op) > 2:
+                    # first a (possibly long) message to another node, then the release: whatever the send left in the
+                    # node's buffers must not ride on the release frame
+                    j = ids[op[2] % len(ids)]
+                    net.call(key(i), lambda node: node.write(addr_of[j], 1, bytes(op[3])), 20000)
+                    net.settle(1500)
+                    net.drain_queues()
                 box = net.call(key(i), lambda node: node.release_address(), 20000)
                 net.settle(2000)
                 entry["table_after"] = dict(master.dhcp_dict)
@@ -371,10 +378,11 @@ def _strategy(max_nodes=12):
             st.tuples(st.just("lookup_addr"), idx, st.one_of(known, known, st.integers(1, 255), st.sampled_from([0, None]))),
             st.tuples(st.just("lookup_id"), idx, st.just("of"), idx),
             st.tuples(st.just("lookup_id"), idx, st.sampled_from([0, None, 0o5, 0o15, 0o444, 0o123])),
-            st.tuples(st.just("send"), idx, st.just("of"), idx, st.sampled_from([0, 1, 65, 100]), st.binary(max_size=30).map(bytes.hex)),
+            st.tuples(st.just("send"), idx, st.just("of"), idx, st.sampled_from([0, 1, 65, 100]), st.binary(max_size=60).map(bytes.hex)),
             st.tuples(st.just("write"), idx, idx, st.sampled_from([0, 65]), st.binary(max_size=24).map(bytes.hex)),
             st.tuples(st.just("check"), idx, st.booleans()),
             st.tuples(st.just("release"), idx), st.tuples(st.just("rejoin"), idx),
+            st.tuples(st.just("release"), idx, idx, st.sampled_from([0, 10, 25, 48, 100, 144])),
             st.tuples(st.just("kill"), idx),
         ).map(list)
         lossy = draw(st.integers(0, 5)) == 0
@@ -398,7 +406,19 @@ def _pair_sweep(step):
     return gen
 
 
+def _release_after_send():
+    """a joined node sends a message of every length class to its parent side, then releases its address"""
+    ids = [11, 22, 33]
+    nodes = [{"id": i, "kind": "mesh" if n % 2 else "meshnm", "offset": 400 * n, "mcu": {"spi": 50, "jit": 0, "seed": n, "poll": 100}} for n, i in enumerate(ids)]
+    for ln in (0, 1, 24, 25, 48, 49, 100, 144):
+        for who in (0, 1, 2):
+            yield {"nodes": nodes, "master_mcu": {"spi": 50, "jit": 0, "seed": 7, "poll": 100},
+                   "script": [["release", who, (who + 1) % 3, ln], ["lookup_addr", (who + 1) % 3, ids[who]]], "concurrent": False, "loss": "D", "timeout": 7.5}
+
+
 def parts(tier):
     if tier == "quick":
-        return [Part("relay-child-stagger-sweep", "enum", _pair_sweep(200), exhaustive=True), Part("generated", "gen", lambda: _strategy(8), n=96)]
-    return [Part("relay-child-stagger-sweep", "enum", _pair_sweep(25), exhaustive=True), Part("generated", "gen", lambda: _strategy(12), n=3000)]
+        return [Part("relay-child-stagger-sweep", "enum", _pair_sweep(200), exhaustive=True),
+                Part("release-after-send", "enum", _release_after_send, exhaustive=True), Part("generated", "gen", lambda: _strategy(8), n=96)]
+    return [Part("relay-child-stagger-sweep", "enum", _pair_sweep(25), exhaustive=True),
+            Part("release-after-send", "enum", _release_after_send, exhaustive=True), Part("generated", "gen", lambda: _strategy(12), n=3000)]
